@@ -48,6 +48,10 @@ def build_data(case):
     rd = {'_rid': list(range(n_rdm))}
     if case.get('rdm_groups') is not None:
         rd[RDM_DESC] = _desc(case['rdm_groups'], cont)
+    elif (n_rdm + n_cond) % 2 == 0:
+        # the default grouping descriptor 'index' as an earlier selection leaves it behind
+        # (rdms[[2, 0, 1]], a subset of a larger stack): distinct labels that are not the positions
+        rd['index'] = index_labels(n_rdm, n_cond)
     pd = {'_cid': list(range(n_cond))}
     if case.get('pat_groups') is not None:
         pd[PAT_DESC] = _desc(case['pat_groups'], cont)
@@ -364,9 +368,19 @@ def members(labels, value):
     return [i for i, g in enumerate(labels) if g == value]
 
 
+def index_labels(n_rdm, n_cond):
+    """the rdm 'index' descriptor of the data object: positions, or (for half of the shapes) a
+    permutation of them"""
+    if (n_rdm + n_cond) % 2 == 0:
+        return [(3 * i + 1) % n_rdm if n_rdm % 3 else (n_rdm - 1 - i) for i in range(n_rdm)]
+    return list(range(n_rdm))
+
+
 def rdm_labels(case, descriptor):
     n = len(case['data'])
     if descriptor in (None, 'index'):
+        if case.get('rdm_groups') is None:
+            return index_labels(n, case['n_cond'])
         return list(range(n))
     return list(case['rdm_groups'])
 
